@@ -107,6 +107,20 @@ def run(tier="quick", replay=None):
                             "auto: function_symbols[hash] = name — key derives from sha256tree(value.code), value from parameter `name`",
                             "the symbol entry maps the wrong things: key from hash=%s, value from name=%s" % (key_from_hash, p_name in vsrc),
                             fn=f.path)
+        # all symbol entries of one function are written with the same discipline (plain insert: last definition wins
+        # for name, arguments and left_env alike); an entry()/or_insert on one of them de-synchronises the three
+        entry_calls = [(bb, t) for bb, t in f.calls() if (callee_of(t) or "").rsplit("::", 1)[-1] in
+                       ("entry", "or_insert", "or_insert_with", "or_default", "try_insert", "and_modify")
+                       and ("HashMap" in (callee_of(t) or "") or "hash_map::Entry" in (callee_of(t) or "") or "hash::map" in (callee_of(t) or ""))]
+        R.check(not entry_calls, "R13.O1", "R13.O1|uniform-discipline", "%s:%s" % (f.file, f.line),
+                "auto: every table entry in add_defun is written with insert (no entry()/or_insert mix)",
+                "add_defun writes some table entries with %s and others with insert: when two functions generate identical code "
+                "the name kept is the first one's while the argument list recorded is the last one's" % sorted(
+                    {(callee_of(t) or "").rsplit("::", 1)[-1] for _, t in entry_calls}), fn=f.path)
+        has_name = any(o["key"] == "R13.O1|symbols-name" for o in R.obligations)
+        R.check(has_name, "R13.O1", "R13.O1|symbols-name-present", "%s:%s" % (f.file, f.line),
+                "auto: the hash -> name entry is written",
+                "add_defun no longer writes the hash -> name symbol entry with insert", fn=f.path)
         R.floor("R13.O1", "defuns inserts", n_def, 1, ADD_DEFUN)
         R.floor("R13.O1", "function_symbols inserts", n_sym, 2, ADD_DEFUN)
 
@@ -195,6 +209,35 @@ def run(tier="quick", replay=None):
             if not found:
                 R.viol("R13.O3", "R13.O3|defun-code-unchanged", fe.loc(bb),
                        "finalize_env_ looks a defun up but does not return its code", fn=fe.path)
+
+    # ---------------- O5 nested compilations never write the reported symbol table ----------------
+    n5 = 0
+    for g, bb, t in prog.call_sites(lambda c: "CompileContextWrapper" in c and c.endswith("::new")
+                                    or c == "compiler::comptypes::CompilerOpts::compile_program"):
+        c = callee_of(t)
+        idx = 2 if "Wrapper" in c else len(t["args"]) - 1
+        gfl = Flow(g)
+        l = op_local(t["args"][idx]) if idx < len(t["args"]) else None
+        src = gfl.back_pure([gfl.node(op_place(t["args"][idx]))]) if l is not None else set()
+        fresh = any((callee_of(t2) or "").endswith("HashMap::<K, V>::new") for x in src for _, t2 in gfl.call_defs.get(x, []))
+        from_outside = [x for x in src if (1 <= x <= g.argc) or x < 0]
+        passthrough = g.root.endswith("::compile_program") or g.root.endswith("::override_compile_program") or \
+            g.root == "compiler::compiler::compile_file"
+        n5 += 1
+        key = "R13.O5|%s|%s" % (g.path, c.rsplit("::", 1)[-1] if "Wrapper" not in c else "context")
+        k2, i2 = key, 2
+        while any(o["key"] == k2 for o in R.obligations):
+            k2 = "%s#%d" % (key, i2)
+            i2 += 1
+        if passthrough:
+            R.ob("R13.O5", k2, g.loc(bb), "auto: top-level chain (%s hands on its caller's symbol table)" % g.root.rsplit("::", 1)[-1], fn=g.path)
+        else:
+            R.check(fresh and not from_outside, "R13.O5", k2, g.loc(bb),
+                    "auto: nested compilation writes its symbols into a fresh throw-away table",
+                    "%s runs a nested compilation with the ENCLOSING compilation's symbol table (derived from %s): the inner "
+                    "codegen replaces the table wholesale (clone_from), so the outer functions' entries disappear or are mixed with "
+                    "the inner program's" % (g.path, "a parameter/captured context" if from_outside else "a non-fresh value"), fn=g.path)
+    R.floor("R13.O5", "nested/top-level compile contexts", n5, 10)
 
     # ---------------- O4 ------------------------------------------------------------------------
     cg = prog.fn("compiler::codegen::codegen")
